@@ -17,7 +17,7 @@ BUDGET_S = {'quick': 100, 'thorough': 1800}
 
 
 def plan(tier, seed):
-    return [('burst', 1200 if tier == 'quick' else 40000)]
+    return [('burst', 5000 if tier == 'quick' else 60000)]
 
 
 def _content(f):
